@@ -91,9 +91,16 @@ def distribute(computation_graph: ComputationGraph,
     # In order to remove (latter on) distribution hints, we interpret
     # hosting costs of 0 as a "must host" relationship
     must_host = defaultdict(lambda : [])
+    hosted_on = {}
     for agent in agentsdef:
         for comp in computation_graph.node_names():
             if agent.hosting_cost(comp) == 0:
+                if comp in hosted_on:
+                    raise ImpossibleDistributionException(
+                        'Computation {} has an hosting cost of 0 on several '
+                        'agents and cannot be hosted on both {} and {}'.format(
+                            comp, hosted_on[comp], agent.name))
+                hosted_on[comp] = agent.name
                 must_host[agent.name].append(comp)
     logger.debug(f"Must host: {must_host}")
 
